@@ -94,7 +94,8 @@ namespace occa {
     occa::scope getCpuReduceArrayScope(reductionType type,
                                        const T2 &localInit,
                                        const bool useLocalInit,
-                                       const baseFunction &fn) const {
+                                       const baseFunction &fn,
+                                       const bool fnIsPredicate = false) const {
       const int arrayLength = (int) length();
       const int ompLoopSize = 128;
 
@@ -104,7 +105,7 @@ namespace occa {
         {"defines/T", dtype_.name()},
         {"defines/T2", dtype::get<T2>().name()},
         {"defines/OCCA_ARRAY_OMP_LOOP_SIZE", 128},
-        {"defines/OCCA_ARRAY_FUNCTION(ACC, VALUE, INDEX, VALUES_PTR)", buildReduceFunctionCall(fn)},
+        {"defines/OCCA_ARRAY_FUNCTION(ACC, VALUE, INDEX, VALUES_PTR)", buildReduceFunctionCall(fn, fnIsPredicate)},
         {"defines/OCCA_ARRAY_LOCAL_REDUCTION(LEFT_VALUE, RIGHT_VALUE)", buildLocalReductionOperation(type)},
         {"functions/occa_array_function", fn}
       });
@@ -133,7 +134,8 @@ namespace occa {
     occa::scope getGpuReduceArrayScope(reductionType type,
                                        const T2 &localInit,
                                        const bool useLocalInit,
-                                       const baseFunction &fn) const {
+                                       const baseFunction &fn,
+                                       const bool fnIsPredicate = false) const {
       const int arrayLength = (int) length();
 
       // Default and limit to 1024 if not set
@@ -174,7 +176,7 @@ namespace occa {
         {"defines/T2", dtype::get<T2>().name()},
         {"defines/OCCA_ARRAY_TILE_SIZE", safeTileSize},
         {"defines/OCCA_ARRAY_TILE_ITERATIONS", safeTileIterations},
-        {"defines/OCCA_ARRAY_FUNCTION(ACC, VALUE, INDEX, VALUES_PTR)", buildReduceFunctionCall(fn)},
+        {"defines/OCCA_ARRAY_FUNCTION(ACC, VALUE, INDEX, VALUES_PTR)", buildReduceFunctionCall(fn, fnIsPredicate)},
         {"defines/OCCA_ARRAY_LOCAL_REDUCTION(LEFT_VALUE, RIGHT_VALUE)", buildLocalReductionOperation(type)},
         {"defines/OCCA_ARRAY_SHARED_REDUCTION(BOUNDS)",
          "for (int i = 0; i < OCCA_ARRAY_TILE_SIZE; ++i; @inner) {"
@@ -211,7 +213,16 @@ namespace occa {
       return buildFunctionCall(fn, true);
     }
 
-    std::string buildReduceFunctionCall(const baseFunction &fn) const {
+    std::string buildReduceFunctionCall(const baseFunction &fn,
+                                        const bool fnIsPredicate = false) const {
+      if (fnIsPredicate) {
+        // Reduction step used by findIndex: keep the smallest index
+        // whose entry satisfies the predicate
+        return (
+          "(" + buildFunctionCall(fn, true)
+          + " ? ((INDEX) < (ACC) ? (INDEX) : (ACC)) : (ACC))"
+        );
+      }
       return buildFunctionCall(fn, false);
     }
 
@@ -421,23 +432,15 @@ namespace occa {
     }
 
     int typelessFindIndex(const baseFunction &fn) const {
-      int returnValue = -1;
+      // The first matching index is the minimum over all matching indices
+      // (entries are visited in parallel, so "last writer wins" is not an option)
+      const int arrayLength = (int) length();
 
-      setupReturnMemory(returnValue);
+      const int index = typelessReduce<int>(
+        reductionType::min, arrayLength, true, fn, true
+      );
 
-      OCCA_JIT(getMapArrayScope(fn), (
-        OCCA_ARRAY_TILE_FOR_LOOP {
-          OCCA_ARRAY_TILE_PARALLEL_FOR_LOOP {
-            if (OCCA_ARRAY_FUNCTION_CALL(i)) {
-              occa_array_return[0] = i;
-            }
-          }
-        }
-      ));
-
-      setReturnValue(returnValue);
-
-      return returnValue;
+      return index < arrayLength ? index : -1;
     }
 
     void typelessForEach(const baseFunction &fn) const {
@@ -477,11 +480,12 @@ namespace occa {
     T2 typelessReduce(reductionType type,
                        const T2 &localInit,
                        const bool useLocalInit,
-                       const baseFunction &fn) const {
+                       const baseFunction &fn,
+                       const bool fnIsPredicate = false) const {
       if (usingNativeCpuMode()) {
-        return typelessCpuReduce<T2>(type, localInit, useLocalInit, fn);
+        return typelessCpuReduce<T2>(type, localInit, useLocalInit, fn, fnIsPredicate);
       } else {
-        return typelessGpuReduce<T2>(type, localInit, useLocalInit, fn);
+        return typelessGpuReduce<T2>(type, localInit, useLocalInit, fn, fnIsPredicate);
       }
     }
 
@@ -489,8 +493,9 @@ namespace occa {
     T2 typelessCpuReduce(reductionType type,
                           const T2 &localInit,
                           const bool useLocalInit,
-                          const baseFunction &fn) const {
-      occa::scope scope = getCpuReduceArrayScope<T2>(type, localInit, useLocalInit, fn);
+                          const baseFunction &fn,
+                          const bool fnIsPredicate = false) const {
+      occa::scope scope = getCpuReduceArrayScope<T2>(type, localInit, useLocalInit, fn, fnIsPredicate);
 
       OCCA_JIT(scope, (
         for (int ompIndex = 0; ompIndex < OCCA_ARRAY_OMP_LOOP_SIZE; ++ompIndex; @outer) {
@@ -521,8 +526,9 @@ namespace occa {
     T2 typelessGpuReduce(reductionType type,
                           const T2 &localInit,
                           const bool useLocalInit,
-                          const baseFunction &fn) const {
-      occa::scope scope = getGpuReduceArrayScope<T2>(type, localInit, useLocalInit, fn);
+                          const baseFunction &fn,
+                          const bool fnIsPredicate = false) const {
+      occa::scope scope = getGpuReduceArrayScope<T2>(type, localInit, useLocalInit, fn, fnIsPredicate);
 
       OCCA_JIT(scope, (
         for (int tileIndex = 0;
